@@ -231,7 +231,10 @@ def check_C07():
     sched_part(ctx, "C07", cov, directed=False,
                sets=[("Map", n, ["-prefill", "73", "-clear", "0"]), ("MapOf_int", n, ["-hasher", "const", "-prefill", "125", "-clear", "0"]),
                      ("MapOf_str", n, ["-prefill", "121"]), ("Map", n, []), ("MapOf_int", n, ["-threads", "4", "-ops", "4", "-sched", "mix"]),
-                     ("Cache", n, []), ("CacheOf_int", n, [])])
+                     ("Cache", n, []), ("CacheOf_int", n, []),
+                     # cache-level traversals over a table of stable, untouched entries while other threads insert and
+                     # remove other keys: every stable entry must be visited (Items / Range of the cache, not of the map)
+                     ("Cache", n, ["-prefill", "20", "-clear", "0"]), ("CacheOf_int", n, ["-prefill", "20", "-clear", "0"])])
     tools, _ = sched.build(ctx)
     if all(tools.values()):
         scen = reentrant_scenarios()
